@@ -17,7 +17,8 @@ MANIFEST = dict(
           "cutting at the first '*' (induction over the code list, through the Hill form and the H[1]->H/D "
           "substitution); two strings with the same multiset of codes give the identical molecule (induction on "
           "Permutation); strings differing only in spaces, or only after a '*', give the identical Sequence; the "
-          "densities are 1e24*(mass/N_A)/V (0 when V = 0); every ambiguity code of the three tables is the equal-weight "
+          "densities, including the object's own .density attribute (= natural_formula.density), are 1e24*(mass/N_A)/V "
+          "(0 when V = 0); every ambiguity code of the three tables is the equal-weight "
           "average in volume, charge and every atom count of the codes it stands for, and every table entry stores the "
           "masses of its own formula (kernel-evaluated sweep over the regenerated rows); formula(type+':'+s) is the "
           "labile formula of Sequence(None, s, type); read_fasta(junk ++ emit records) = records for any records whose "
@@ -25,14 +26,18 @@ MANIFEST = dict(
           "text); the four extensions map to dna/dna/aa/rna, anything else to aa, an explicit type wins.  Tie: every "
           "table entry, every single code, random code strings of length 0..3000 over all codes with spaces and '*', "
           "permutations, the prefixes, unknown codes, generated FASTA files in a scratch directory; the implementation's "
-          "name, sequence, cell_volume, charge, mass, Dmass, labile/natural formula structure and densities are compared "
+          "name, sequence, cell_volume, charge, mass, Dmass, density, labile/natural formula structure and densities are compared "
           "with the model (counts and charge exactly when all residues are dyadic, else 2^-40) and with the sum over "
           "residue entries.  Failing inputs are searched on the implementation alone (additivity, permutation, "
           "spaces/'*', IUPAC averages, density, prefix, FASTA round trip, residue rows vs a frozen reference copy)."),
     note=("Modelled not verified: pyparsing (parser model of C01), float arithmetic (2^-40 allowance), text-mode file "
           "reading (only '\\n' line ends), str.rstrip on ASCII.  Not modelled: the deprecated tritium path of Molecule, "
-          "Molecule from a density, sld/D2Omatch (C03/C16).  Residue rows are data regenerated from the source; an edit "
-          "of a row is only visible against the frozen reference copy kept in the harness."),
+          "Molecule from a density, sld/D2Omatch (C03/C16).  Residue rows are data regenerated from the source, so model and "
+          "code follow an edited row together; the harness therefore keeps a reference copy of the published residue "
+          "volumes/formulas as shipped in 1.6.1 (the 20 amino-acid and 2x4 nucleotide rows) and reports a failing input "
+          "with signature C18:residue-data:<table>:<code>:<field> only when the table served by the implementation "
+          "differs from that reference.  The documented Molecule.density attribute is observed on every object "
+          "(signature C18:density-attribute if it goes missing again)."),
     technique=("Coq proof: induction over code lists / Permutation / record lists using the formula algebra of C02/C19, "
                "kernel-evaluated sweep of the table construction; differential run of the model inside coqc"),
     ref="DESIGN.md section 7 C18")
